@@ -34,6 +34,7 @@ func (p *Prog) normalizeOverlay() (map[string][]byte, []string) {
 	byFile := map[string][]job{}
 	litVar := map[*ast.RangeStmt]*types.Var{}
 	litOf := map[*ast.RangeStmt]*ast.CompositeLit{}
+	pkgLit := map[*ast.RangeStmt]bool{}
 	for _, f := range p.Funcs {
 		if f.Body == nil {
 			continue
@@ -69,6 +70,16 @@ func (p *Prog) normalizeOverlay() (map[string][]byte, []string) {
 								litVar[rs] = lv
 							}
 						}
+					}
+				}
+			}
+			if !ok {
+				// a package-level table that is initialised with such a literal and
+				// only ever read
+				if pv, isV := identObj(info, ast.Unparen(rs.X)).(*types.Var); isV && !pv.IsField() && pv.Pkg() != nil && pv.Parent() == pv.Pkg().Scope() {
+					if cl := p.pkgVarLiteral(f, pv); cl != nil && p.pkgVarReadOnly(pv) {
+						lit, ok = cl, true
+						pkgLit[rs] = true
 					}
 				}
 			}
@@ -177,6 +188,19 @@ func (p *Prog) normalizeOverlay() (map[string][]byte, []string) {
 					return true
 				}
 				lit, isLit := ast.Unparen(rs.X).(*ast.CompositeLit)
+				if !isLit && pkgLit[j.rs] {
+					// elements of a package-level table (possibly declared in another
+					// file): position-free copies of its pure operands
+					fresh := &ast.CompositeLit{}
+					for _, e := range litOf[j.rs].Elts {
+						fe := freshPure(e)
+						if fe == nil {
+							return false
+						}
+						fresh.Elts = append(fresh.Elts, fe)
+					}
+					lit, isLit = fresh, true
+				}
 				if !isLit {
 					// the literal bound to the ranged local: locate it by offset
 					want := p.Fset.Position(litOf[j.rs].Pos()).Offset
@@ -299,4 +323,88 @@ func cloneBlockSubst(fset *token.FileSet, blk *ast.BlockStmt, useAt map[int]bool
 		return true
 	}, nil)
 	return cp
+}
+
+// freshPure returns a position-free copy of a pure operand (identifier,
+// selector chain, basic literal), or nil.
+func freshPure(e ast.Expr) ast.Expr {
+	switch x := ast.Unparen(e).(type) {
+	case *ast.Ident:
+		return ast.NewIdent(x.Name)
+	case *ast.BasicLit:
+		return &ast.BasicLit{Kind: x.Kind, Value: x.Value}
+	case *ast.SelectorExpr:
+		if in := freshPure(x.X); in != nil {
+			return &ast.SelectorExpr{X: in, Sel: ast.NewIdent(x.Sel.Name)}
+		}
+	}
+	return nil
+}
+
+// pkgVarLiteral returns the composite literal that initialises the
+// package-level variable v (declared in f's package), or nil.
+func (p *Prog) pkgVarLiteral(f *Func, v *types.Var) *ast.CompositeLit {
+	info := f.Pkg.TypesInfo
+	for _, file := range f.Pkg.Syntax {
+		for _, d := range file.Decls {
+			gd, ok := d.(*ast.GenDecl)
+			if !ok || gd.Tok != token.VAR {
+				continue
+			}
+			for _, sp := range gd.Specs {
+				vs, ok := sp.(*ast.ValueSpec)
+				if !ok || len(vs.Values) != len(vs.Names) {
+					continue
+				}
+				for i, nm := range vs.Names {
+					if info.Defs[nm] == v {
+						cl, _ := ast.Unparen(vs.Values[i]).(*ast.CompositeLit)
+						return cl
+					}
+				}
+			}
+		}
+	}
+	return nil
+}
+
+// pkgVarReadOnly: v is never assigned (whole or by element), never has its
+// address taken and is never passed to a call in the module's functions.
+func (p *Prog) pkgVarReadOnly(v *types.Var) bool {
+	ok := true
+	for _, f := range p.Funcs {
+		if f.Body == nil || f.Pkg.Types != v.Pkg() {
+			continue
+		}
+		info := f.Pkg.TypesInfo
+		ast.Inspect(f.Body, func(x ast.Node) bool {
+			switch s := x.(type) {
+			case *ast.AssignStmt:
+				for _, l := range s.Lhs {
+					l = ast.Unparen(l)
+					if ix, isIx := l.(*ast.IndexExpr); isIx {
+						l = ast.Unparen(ix.X)
+					}
+					if identObj(info, l) == v {
+						ok = false
+					}
+				}
+			case *ast.UnaryExpr:
+				if s.Op == token.AND && identObj(info, s.X) == v {
+					ok = false
+				}
+			case *ast.CallExpr:
+				if id, isId := s.Fun.(*ast.Ident); isId && id.Name == "len" {
+					return true
+				}
+				for _, a := range s.Args {
+					if identObj(info, a) == v {
+						ok = false
+					}
+				}
+			}
+			return true
+		})
+	}
+	return ok
 }
